@@ -40,6 +40,7 @@ type Config struct {
 	Workers       int
 	MaxPaths      int
 	MaxInstr      int64 // per path
+	MaxDecisions  int   // per path: bound on the branch decisions taken (default 4000)
 	Deadline      time.Time
 	FeasTimeoutMs int // feasibility queries (unknown = keep branch)
 	AssertTimeMs  int // final obligations, first solver
@@ -333,6 +334,7 @@ func (e *Engine) decide(c *Term) bool {
 		d = e.log[e.pos].B
 	} else {
 		e.nontriv = true
+		e.pathLimits()
 		rt, _ := e.query(c, false, e.cfg.FeasTimeoutMs)
 		if rt == "unsat" {
 			d = false
@@ -360,6 +362,22 @@ func (e *Engine) decide(c *Term) bool {
 	return d
 }
 
+// pathLimits ends a path whose decision depth passes the unwinding bound (a loop whose
+// trip count depends on a symbolic value) or that is still deciding after the harness
+// deadline: both are reported as truncation, never as success.
+func (e *Engine) pathLimits() {
+	max := e.cfg.MaxDecisions
+	if max == 0 {
+		max = 4000
+	}
+	if len(e.log) > max {
+		panic(unsupported{"step budget exhausted (decision depth: a loop bounded only by a symbolic value)"})
+	}
+	if !e.cfg.Deadline.IsZero() && time.Now().After(e.cfg.Deadline.Add(20*time.Second)) {
+		panic(unsupported{"step budget exhausted (deadline passed inside a path)"})
+	}
+}
+
 // concretize enumerates the feasible values of a bit-vector term (by forking) and
 // returns the one chosen on this path.
 func (e *Engine) concretize(t *Term, what string) uint64 {
@@ -376,6 +394,7 @@ func (e *Engine) concretize(t *Term, what string) uint64 {
 			cand, d = e.log[e.pos].V, e.log[e.pos].B
 		} else {
 			e.nontriv = true
+			e.pathLimits()
 			r, m := e.queryValue(t)
 			if r != "sat" {
 				// pc infeasible or unknown: cannot enumerate
